@@ -15,6 +15,7 @@ import (
 func init() {
 	Runners["aggregation"] = runAggregation
 	Runners["aggregation-large"] = runAggregationLarge
+	Runners["aggregation-origins"] = runAggregationOrigins
 }
 
 type aggrCase struct {
@@ -318,6 +319,161 @@ func runAggregationLarge(raw json.RawMessage, seed int64) (res Result) {
 			res.Evals++
 			if _, err := crypto.AggregateBLSSignatures(bad); err == nil {
 				add("MalformedReported", fmt.Sprintf("AggregateBLSSignatures of %d signatures accepts a malformed signature at position %d", n, pos))
+			}
+		}
+	}
+	return
+}
+
+type aggProc struct {
+	me  int
+	out *[]aggMsg
+}
+type aggMsg struct {
+	from, to int
+	data     []byte
+}
+
+func (p aggProc) PrivateSend(d int, b []byte) {
+	*p.out = append(*p.out, aggMsg{p.me, d, append([]byte(nil), b...)})
+}
+func (p aggProc) Broadcast(b []byte) {
+	*p.out = append(*p.out, aggMsg{p.me, -1, append([]byte(nil), b...)})
+}
+func (aggProc) Disqualify(int, string)      {}
+func (aggProc) FlagMisbehavior(int, string) {}
+
+// dkgKeys: the private / public key shares of an all-honest Joint-Feldman run (public key objects as End() returns them)
+func dkgKeys(n, t int, seed int64) ([]crypto.PrivateKey, [][]crypto.PublicKey) {
+	var msgs []aggMsg
+	nodes := make([]crypto.DKGState, n)
+	for i := range nodes {
+		nodes[i], _ = crypto.NewJointFeldman(n, t, i, aggProc{i, &msgs})
+	}
+	for i := range nodes {
+		sd := make([]byte, 32)
+		sd[0], sd[1] = byte(i), byte(seed)
+		nodes[i].Start(sd)
+	}
+	for k := 0; k < len(msgs); k++ {
+		m := msgs[k]
+		for j := range nodes {
+			if j == m.from {
+				continue
+			}
+			if m.to == -1 {
+				nodes[j].HandleBroadcastMsg(m.from, m.data)
+			} else if m.to == j {
+				nodes[j].HandlePrivateMsg(m.from, m.data)
+			}
+		}
+	}
+	var sks []crypto.PrivateKey
+	var pkss [][]crypto.PublicKey
+	for i := range nodes {
+		nodes[i].NextTimeout()
+		nodes[i].NextTimeout()
+		sk, _, pks, err := nodes[i].End()
+		if err != nil {
+			panic("harness: all-honest DKG failed: " + err.Error())
+		}
+		sks = append(sks, sk)
+		pkss = append(pkss, pks)
+	}
+	return sks, pkss
+}
+
+// runAggregationOrigins: the aggregation laws over public-key OBJECTS of every provenance - generated, decoded, aggregated, left over
+// after a removal, public key shares of BLSThresholdKeyGen and of a DKG run (results of point arithmetic in the C layer) - the
+// law does not depend on how the object came about.  Expected values are reference multiples of the generator.
+func runAggregationOrigins(raw json.RawMessage, seed int64) (res Result) {
+	res.Violations = []Violation{}
+	defer func() {
+		if r := recover(); r != nil {
+			res.Violations = append(res.Violations, Violation{"C09", "NoPanic", fmt.Sprintf("aggregation over key origins: panic: %v", r)})
+		}
+	}()
+	w := NewWorld(seed)
+	add := func(pred, d string) {
+		if len(res.Violations) < 6 {
+			res.Violations = append(res.Violations, Violation{"C04", pred, fmt.Sprintf("%s [seed %d]", d, seed)})
+		}
+	}
+	type obj struct {
+		origin string
+		pk     crypto.PublicKey
+		s      *big.Int
+	}
+	var objs []obj
+	sc := func(sk crypto.PrivateKey) *big.Int { return new(big.Int).SetBytes(sk.Encode()) }
+	// threshold key generation
+	tsk, tpk, _, err := crypto.BLSThresholdKeyGen(5, 2, w.randBytes(32))
+	if err != nil {
+		panic(err)
+	}
+	for i := range tsk {
+		objs = append(objs, obj{"share of BLSThresholdKeyGen", tpk[i], sc(tsk[i])})
+	}
+	// DKG
+	dsk, dpks := dkgKeys(3, 1, seed)
+	for i := range dsk {
+		objs = append(objs, obj{"public key share returned by a DKG End()", dpks[(i+1)%3][i], sc(dsk[i])})
+	}
+	// generated, decoded, aggregated, remainder of a removal
+	a, b := w.Scalar("oa"), w.Scalar("ob")
+	objs = append(objs, obj{"generated", w.SK(a).PublicKey(), a})
+	dec, _ := crypto.DecodePublicKey(crypto.BLSBLS12381, w.SK(b).PublicKey().Encode())
+	objs = append(objs, obj{"decoded", dec, b})
+	ab, _ := crypto.AggregateBLSPublicKeys([]crypto.PublicKey{w.SK(a).PublicKey(), w.SK(b).PublicKey()})
+	objs = append(objs, obj{"aggregated", ab, new(big.Int).Mod(new(big.Int).Add(a, b), ref.R)})
+	rem, _ := crypto.RemoveBLSPublicKeys(ab, []crypto.PublicKey{w.SK(b).PublicKey()})
+	objs = append(objs, obj{"remainder of a removal", rem, a})
+	askk, _ := crypto.AggregateBLSPrivateKeys([]crypto.PrivateKey{w.SK(a), w.SK(b)})
+	objs = append(objs, obj{"public key of an aggregated private key", askk.PublicKey(), new(big.Int).Mod(new(big.Int).Add(a, b), ref.R)})
+	m := w.Msg("m1")
+	H := w.HashPoint("kmac", "m1")
+	// every object alone, every pair, and random triples / quadruples
+	var sets [][]int
+	for i := range objs {
+		sets = append(sets, []int{i})
+		for j := i + 1; j < len(objs); j++ {
+			sets = append(sets, []int{i, j}, []int{j, i})
+		}
+	}
+	for k := 0; k < 30; k++ {
+		n := 3 + w.Rng.Intn(3)
+		var st []int
+		for len(st) < n {
+			st = append(st, w.Rng.Intn(len(objs)))
+		}
+		sets = append(sets, st)
+	}
+	for _, st := range sets {
+		sum := new(big.Int)
+		var pks []crypto.PublicKey
+		var names []string
+		for _, i := range st {
+			sum.Add(sum, objs[i].s)
+			pks = append(pks, objs[i].pk)
+			names = append(names, objs[i].origin)
+		}
+		sum.Mod(sum, ref.R)
+		res.Evals += 2
+		agg, err := crypto.AggregateBLSPublicKeys(pks)
+		if err != nil || !bytes.Equal(agg.Encode(), w.G2Bytes(sum)) {
+			add("PublicKeyHomomorphism", fmt.Sprintf("AggregateBLSPublicKeys over keys of origins %v differs from the reference sum (err %v)", names, err))
+			continue
+		}
+		if sum.Sign() != 0 {
+			if ok, err := crypto.VerifyBLSSignatureOneMessage(pks, H.Mul(sum).Compress(), m.Data, w.Hasher("kmac", "m1")); !ok || err != nil {
+				add("PublicKeyHomomorphism", fmt.Sprintf("VerifyBLSSignatureOneMessage over keys of origins %v rejects the signature of the summed key (%v, %v)", names, ok, err))
+			}
+		}
+		if len(st) >= 2 {
+			res.Evals++
+			back, err := crypto.RemoveBLSPublicKeys(agg, pks[1:])
+			if err != nil || !bytes.Equal(back.Encode(), w.G2Bytes(objs[st[0]].s)) {
+				add("RemovalInverse", fmt.Sprintf("RemoveBLSPublicKeys(Aggregate(keys of origins %v), all but the first) is not the first key (err %v)", names, err))
 			}
 		}
 	}
